@@ -1,7 +1,6 @@
 package main
 
 func extractQueue()       {}
-func extractUrl()         {}
 func extractStages()      {}
 func extractExtractors()  {}
 func extractArchiver()    {}
